@@ -244,6 +244,7 @@ fn input_case(case: u64, seed: u64, want_sample: bool) -> CaseOut {
     hh.u64(kind as u64 | (fbits & 3) << 8);
     let total = 3200 + rng.below(100);
     let mut polls = 0u64;
+    let mut short = 0u64;
     while out.events < total && out.viol.is_empty() && dev.viol.is_empty() {
         let burst = rng.range(1, 32) as usize;
         for _ in 0..burst {
@@ -253,7 +254,11 @@ fn input_case(case: u64, seed: u64, want_sample: bool) -> CaseOut {
             b[2..4].copy_from_slice(&((id >> 3) as u16).to_le_bytes());
             b[4..8].copy_from_slice(&(id as u32).to_le_bytes());
             let p = rng.next() as usize;
-            if let Some((h, _, _)) = dev.complete(p, 8, Some(b)) {
+            // every written length up to the buffer size: one event in eight is short (0..7 bytes written)
+            if p >> 40 & 7 == 0 {
+                b.truncate((p >> 44 & 7) as usize);
+            }
+            if let Some((h, _, _)) = dev.complete(p, b.len(), Some(b)) {
                 hh.u64(h as u64);
             }
         }
@@ -267,9 +272,21 @@ fn input_case(case: u64, seed: u64, want_sample: bool) -> CaseOut {
                 (Ok(None), None) => {}
                 (Ok(Some(e)), None) => out.viol.push(DViol { prop: "C19", rule: "event_without_completion", detail: format!("pop_pending_event returned {:?} with nothing completed", e) }),
                 (Ok(None), Some((h, id, _))) => out.viol.push(DViol { prop: "C19", rule: "event_lost", detail: format!("event {} completed in buffer {} but pop_pending_event returned None", id, h) }),
-                (Ok(Some(e)), Some((h, id, _))) => {
-                    if e.event_type != (id % 7) as u16 || e.code != (id >> 3) as u16 || e.value != id as u32 {
-                        out.viol.push(DViol { prop: "C19", rule: "event_bytes_wrong", detail: format!("event #{} (buffer {}) delivered as {:?}", id, h, e) });
+                (Ok(Some(e)), Some((h, id, len))) => {
+                    // exactly the bytes the device wrote: compare the written prefix (the event struct is always 8 bytes)
+                    let mut want = vec![0u8; 8];
+                    want[0..2].copy_from_slice(&((id % 7) as u16).to_le_bytes());
+                    want[2..4].copy_from_slice(&((id >> 3) as u16).to_le_bytes());
+                    want[4..8].copy_from_slice(&(id as u32).to_le_bytes());
+                    let mut got = vec![0u8; 8];
+                    got[0..2].copy_from_slice(&e.event_type.to_le_bytes());
+                    got[2..4].copy_from_slice(&e.code.to_le_bytes());
+                    got[4..8].copy_from_slice(&e.value.to_le_bytes());
+                    if got[..len.min(8)] != want[..len.min(8)] {
+                        out.viol.push(DViol { prop: "C19", rule: "event_bytes_wrong", detail: format!("event #{} (buffer {}, {} bytes written) delivered as {:?}", id, h, len, e) });
+                    }
+                    if len < 8 {
+                        short += 1;
                     }
                     out.events += 1;
                     dev.check_repost(h, dev.fifo.len());
@@ -292,7 +309,7 @@ fn input_case(case: u64, seed: u64, want_sample: bool) -> CaseOut {
         v.detail = format!("{} [VirtIOInput transport {} offered {:#x} case {}]", v.detail, kind.name(), offered, case);
     }
     out.hash = hh.finish();
-    out.counters = vec![("input_polls", polls), ("input_events_delivered_and_compared", out.events), ("repost_checks", dev.reposts_checked), ("input_cases", 1)];
+    out.counters = vec![("input_polls", polls), ("input_events_delivered_and_compared", out.events), ("repost_checks", dev.reposts_checked), ("input_cases", 1), ("input_short_events", short)];
     if want_sample {
         out.sample = Some(J::obj().with("case", J::u(case)).with("target", J::s("VirtIOInput::pop_pending_event")).with("transport", J::s(kind.name())).with("events", J::u(out.events)));
     }
